@@ -160,6 +160,12 @@ func (e *executor) wlCell(a opArgs, lean string) string {
 	counts := map[string]int{}
 	var ent float32
 	idx := make([]uint32, len(bounds))
+	// the word pick on its own: Length 1, no capitalising scheme, a separator that is never used
+	kept := readBack(wl)
+	capt.take()
+	keptOK := len(kept) == size
+	capSeen := map[string]map[int]int{}
+	pickOnly := L == 1 && len(bounds) == 1 && scheme != "first" && scheme != "all"
 	for c := 0; c < total; c++ {
 		v := c
 		for i := len(bounds) - 1; i >= 0; i-- {
@@ -171,6 +177,13 @@ func (e *executor) wlCell(a opArgs, lean string) string {
 		var err error
 		ro := withReader(s, func() { p, err = r.Generate() })
 		capt.take()
+		if (ro.panicked || err != nil || p == nil) && pickOnly {
+			// more draws than the one the pick needs: let it have them (every further raw word is 1),
+			// the complete cell still has to select every kept word exactly once
+			s2 := &scripted{bytes: wordsToBytes(append(append([]uint32{}, idx...), 1, 1, 1, 1, 1, 1, 1, 1))}
+			ro = withReader(s2, func() { p, err = r.Generate() })
+			capt.take()
+		}
 		if ro.panicked || err != nil || p == nil {
 			// the code does not make exactly the draws of the specified choice structure on this
 			// stream; what it does to the distribution is for the statistical check to say
@@ -184,6 +197,39 @@ func (e *executor) wlCell(a opArgs, lean string) string {
 		}
 		ent = p.Entropy
 		counts[showTokens(p.Tokens())]++
+		if scheme == "one" && keptOK {
+			// which position shows a capital in this result, for this word tuple
+			atoms := p.Tokens().Atoms()
+			key := fmt.Sprint(idx[1:])
+			k := 0
+			for i := 0; i < L; i++ {
+				w := kept[idx[1+i]]
+				if w == "" {
+					continue // the empty word leaves no atom
+				}
+				if k >= len(atoms) || (atoms[k] != w && atoms[k] != strings.Title(w)) {
+					keptOK = false
+					break
+				}
+				if atoms[k] != w {
+					if capSeen[key] == nil {
+						capSeen[key] = map[int]int{}
+					}
+					capSeen[key][i]++
+				}
+				k++
+			}
+		}
+	}
+	oneFail := ""
+	if scheme == "one" && keptOK {
+		for key, m := range capSeen {
+			for pos, n := range m {
+				if n > 1 && oneFail == "" {
+					oneFail = fmt.Sprintf(" CELL-FAIL=one-position-not-uniform(word draws %s: position %d is capitalised by %d of the %d raw position words)", key, pos, n, L)
+				}
+			}
+		}
 	}
 	maxm, minm := 0, total+1
 	for _, n := range counts {
@@ -200,6 +246,12 @@ func (e *executor) wlCell(a opArgs, lean string) string {
 	}
 	sort.Strings(keys)
 	out := fmt.Sprintf("streams=%d distinct=%d maxmult=%d %s", total, len(counts), maxm, dField(lean, ent, 8))
+	out += oneFail
+	if pickOnly && (len(counts) != size || maxm != 1) {
+		// `size` raw words, one per residue, and `size` distinct kept words (the empty word shows as a
+		// password without atoms): each must come out exactly once
+		out += fmt.Sprintf(" CELL-FAIL=word-pick-not-uniform(%d kept words, %d distinct results over the complete cell, one result %d times)", size, len(counts), maxm)
+	}
 	// all capitalisable according to the implementation itself?
 	r1 := spg.NewWLRecipe(1, wl)
 	r1.Capitalize = spg.CSRandom
